@@ -159,7 +159,10 @@ def scalarKey (o : OCfg) : PyVal → String
   | v => (if o.ignoreNumType then "number" else typeName v) ++ ":" ++ numText o v
 
 def diffSet (o : OCfg) (steps : List Step) (xs ys : List PyVal) : Tree :=
-  Diff.diffSet (scalarKey o) steps xs ys
+  -- members of an excluded type get no digest (`DeepHash` skips them), so `_create_hashtable` leaves them out on both sides:
+  -- they are neither reported nor do they stand for a member the options identify with them
+  let keep (v : PyVal) : Bool := !skipTypes o (some v) Option.none
+  Diff.diffSet (scalarKey o) steps (xs.filter keep) (ys.filter keep)
 
 /-- `isinstance(item, basic_types)` -/
 def pairBasic (o : OCfg) (steps : List Step) (i j : Nat) : List PyVal → List PyVal → Tree
